@@ -335,7 +335,7 @@ VARIANTS = [
     V("c09-child-registered-after-start", {"C09": "R5"}, edits=[
         (I, "            self._actors[actor_id] = child_interpreter\n            for plugin in self._plugins:\n                plugin.on_service_start(self, invocation)\n            pass\n            await child_interpreter.start()\n",
             "            for plugin in self._plugins:\n                plugin.on_service_start(self, invocation)\n            pass\n            await child_interpreter.start()\n            self._actors[actor_id] = child_interpreter\n")]),
-    V("c10-region-prefix-without-dot", {"C10": "R6", "C01": "R8"}, edits=[
+    V("c10-region-prefix-without-dot", {"C10": "R6", "C01": "R8", "C03": "R8"}, edits=[
         (B, "active_in_region = [d for d in self._active_state_nodes if self._is_descendant(d, region)]", "active_in_region = [d for d in self._active_state_nodes if d.id.startswith(region.id)]")]),
     V("c03-domain-from-source-on-reenter", {"C03": "R7"}, edits=[
         (B, "        if target_state == transition.source:\n            return parent\n", "        if target_state == transition.source or transition.reenter:\n            return parent\n")]),
@@ -375,6 +375,39 @@ VARIANTS = [
         (S, "        event_obj = self._prepare_event(event_or_type, **payload)\n        self._event_queue.append(event_obj)\n", "        event_obj = self._prepare_event(event_or_type, **payload)\n        self._enqueue(event_obj)\n"),
         (S, "    def send_events(self, events", "    def _enqueue(self, event_obj) -> None:\n        self._event_queue.append(event_obj)\n\n    def send_events(self, events")],
       note="enqueue moved into a private helper called from send()"),
+    # ------------------------------------------------------------------ rules added after the second round of seeded changes
+    V("c12-restore-filters-ids", {"C12": "R7"}, edits=[
+        (B, "        for state_id in restore_ids:\n", "        leaf_ids = snapshot.get('state_ids') or []\n        if leaf_ids:\n            restore_ids = [sid for sid in restore_ids if any((leaf == sid or leaf.startswith(f'{sid}.') for leaf in leaf_ids))]\n        for state_id in restore_ids:\n")],
+      note="from_snapshot drops configuration entries no recorded leaf vouches for"),
+    V("c08-timer-key-by-event-type", {"C08": "R3"}, edits=[
+        (S, "        unique_key = f'{owner_id}::{uuid.uuid4()}'\n", "        unique_key = f'{owner_id}::{event.type}'\n")],
+      note="two activations of one state share a cancel-flag key"),
+    V("c07-handler-helper-dunder", {"C07": "R6"}, edits=[
+        (B, "            try:\n                listener(self)\n            except Exception:\n                pass\n", "            try:\n                listener(self)\n            except Exception:\n                self._callback_label(listener)\n"),
+        (B, "    def _notify_subscribers(self) -> None:\n", "    @staticmethod\n    def _callback_label(callback: Callable[..., Any]) -> str:\n        module = getattr(callback, '__module__', None)\n        name = getattr(callback, '__qualname__', None) or callback.__name__\n        return f'{module}.{name}' if module else name\n\n    def _notify_subscribers(self) -> None:\n")]),
+    V("silent-handler-helper-with-defaults", silent=["C07"], edits=[
+        (B, "            try:\n                listener(self)\n            except Exception:\n                pass\n", "            try:\n                listener(self)\n            except Exception:\n                self._callback_label(listener)\n"),
+        (B, "    def _notify_subscribers(self) -> None:\n", "    @staticmethod\n    def _callback_label(callback: Callable[..., Any]) -> str:\n        module = getattr(callback, '__module__', None)\n        name = getattr(callback, '__qualname__', None) or getattr(callback, '__name__', repr(callback))\n        return f'{module}.{name}' if module else name\n\n    def _notify_subscribers(self) -> None:\n")],
+      note="the same helper with getattr defaults cannot fail"),
+    V("c06-id-keyed-guard-cache", {"C06": "R9"}, edits=[
+        (B, "        self._action_depth: int = 0\n", "        self._action_depth: int = 0\n        self._inline_guard_defs: Dict[Any, GuardDefinition] = {}\n"),
+        (B, "                if guard_cfg is None or self._is_guard_satisfied(GuardDefinition(guard_cfg), event):\n", "                if guard_cfg is None or self._is_guard_satisfied(self._inline_guard_def(guard_cfg), event):\n"),
+        (B, "    def _is_state_in(self, guard: 'GuardDefinition'", "    def _inline_guard_def(self, guard_cfg: Any) -> 'GuardDefinition':\n        key = guard_cfg if isinstance(guard_cfg, str) else id(guard_cfg)\n        guard_def = self._inline_guard_defs.get(key)\n        if guard_def is None:\n            guard_def = GuardDefinition(guard_cfg)\n            self._inline_guard_defs[key] = guard_def\n        return guard_def\n\n    def _is_state_in(self, guard: 'GuardDefinition'")],
+      note="cache keyed by id() of an object it does not keep alive"),
+    V("silent-id-keyed-cache-pins-object", silent=["C06", "C02"], edits=[
+        (B, "        self._action_depth: int = 0\n", "        self._action_depth: int = 0\n        self._inline_guard_defs: Dict[Any, Any] = {}\n"),
+        (B, "                if guard_cfg is None or self._is_guard_satisfied(GuardDefinition(guard_cfg), event):\n", "                if guard_cfg is None or self._is_guard_satisfied(self._inline_guard_def(guard_cfg), event):\n"),
+        (B, "    def _is_state_in(self, guard: 'GuardDefinition'", "    def _inline_guard_def(self, guard_cfg: Any) -> 'GuardDefinition':\n        key = guard_cfg if isinstance(guard_cfg, str) else id(guard_cfg)\n        entry = self._inline_guard_defs.get(key)\n        if entry is None:\n            entry = (guard_cfg, GuardDefinition(guard_cfg))\n            self._inline_guard_defs[key] = entry\n        return entry[1]\n\n    def _is_state_in(self, guard: 'GuardDefinition'")],
+      note="the same cache keeps the keyed object alive next to the value"),
+    V("c09-invoke-event-cached-by-id", {"C09": "R6"}, edits=[
+        (B, "        self._action_depth: int = 0\n", "        self._action_depth: int = 0\n        self._invoke_events: Dict[str, Event] = {}\n"),
+        (S, "            invoke_event = Event(f'invoke.{invocation.id}', {'input': invocation.input or {}})\n", "            invoke_event = self._invoke_events.get(invocation.id)\n            if invoke_event is None:\n                invoke_event = Event(f'invoke.{invocation.id}', {'input': invocation.input or {}})\n                self._invoke_events[invocation.id] = invoke_event\n")],
+      note="two invocations that share an id share the cached input"),
+    V("c01-start-enters-initial-only", {"C01": "R9"}, edits=[
+        (S, "            self._enter_states([self.machine])\n", "            self._enter_states([self.machine.states[self.machine.initial]])\n")]),
+    V("c05-probe-assign-uncontained", {"C05": "R6"}, edits=[
+        (H, "                    try:\n                        self._apply_assign(self._resolve_params(action_def.params, event) or {}, event)\n                    except Exception:\n                        pass\n                        return\n", "                    self._apply_assign(self._resolve_params(action_def.params, event) or {}, event)\n")],
+      note="revert of fix commit 45ea722"),
     # ================================================================== must stay silent
     V("silent-normal-form", silent=ALL, edits=[], note="whole tree re-emitted by ast.unparse: formatting, comments and line numbers all change"),
     V("silent-rename-local", silent=["C01", "C03", "C05", "C09", "C10"], edits=[
